@@ -2,9 +2,12 @@
 Model of the equational layer of the proof checker (`src/proofs/proof_checker.rs`,
 `proof_format.rs`): terms live in a hash-consed DAG (`TermDag`: equal terms have equal ids), a
 proof is a DAG of steps, each claiming a proposition `lhs = rhs`:
-* `leaf`  — Fiat / MergeFn (and Rule steps of rules outside the modelled fragment: primitives,
-            globals, container side conditions): justified by the PROGRAM (checked by the in-tree
-            checker; here they are the hypotheses of the derivation);
+* `leaf`  — MergeFn (and Rule steps of rules outside the modelled fragment: primitives,
+            container side conditions): justified by the PROGRAM (checked by the in-tree checker;
+            here they are the hypotheses of the derivation);
+* `fiat`  — `Justification::Fiat`: `t = t` for a literal, or one of the propositions of the
+            program's top-level actions (`ProofCheckContext::new`: `process_actions` over
+            `gather_global_actions`, which also yields the bindings of the global `let`s);
 * `rule r prems σ` — `Justification::Rule`: rule number `r` of the checking program, one premise
             proof per body fact, a substitution; `check_proof_with_context` looks the rule up, compares
             the premise COUNT, matches every body fact (instantiated by σ) against the proposition of
@@ -41,6 +44,7 @@ deriving Repr
 inductive Act where
   | union (a b : Pat)
   | expr (e : Pat)          -- `(e)`, and `(set (f args) v)` as the row term `f(args, v)`
+  | letv (v : Nat) (e : Pat)
 deriving Repr
 
 structure Rule where
@@ -48,8 +52,16 @@ structure Rule where
   head : List Act
 deriving Repr
 
+/-- the checking program: its rules, its top-level actions, and which term heads are literals -/
+structure Prog where
+  rules : List Rule
+  globals : List Act
+  lits : List Nat
+deriving Repr
+
 inductive Just where
   | leaf
+  | fiat
   | rule (r : Nat) (prems : List Nat) (σ : List (Nat × Nat))
   | sym (p : Nat)
   | trans (p q : Nat)
@@ -96,15 +108,33 @@ def reach (terms : Array Term) : Nat → Nat → Nat → Bool
     | some t => t.kids.any (fun k => reach terms fuel k b)
     | none => false
 
-def headExprs : List Act → List Pat
-  | [] => []
-  | .union a b :: r => a :: b :: headExprs r
-  | .expr e :: r => e :: headExprs r
+/-- what `process_actions` learns from an action list -/
+structure ActOut where
+  σ : List (Nat × Nat)          -- the bindings after the `let`s
+  eqs : List (Nat × Nat)        -- both directions of every union
+  roots : List Nat              -- every evaluated expression (`t = t` for each of its subterms)
+deriving Repr
 
-def headEqs : List Act → List (Pat × Pat)
-  | [] => []
-  | .union a b :: r => (a, b) :: (b, a) :: headEqs r
-  | .expr _ :: r => headEqs r
+/-- `process_actions`, one pass, `let`s extend the bindings of the later actions.  An expression
+whose instance cannot be formed contributes nothing (the checker fails there; see DESIGN). -/
+def runActs (terms : Array Term) : List (Nat × Nat) → List Act → ActOut
+  | σ, [] => ⟨σ, [], []⟩
+  | σ, .union a b :: r =>
+    let out := runActs terms σ r
+    match instId terms σ a, instId terms σ b with
+    | some x, some y => { out with eqs := (x, y) :: (y, x) :: out.eqs, roots := x :: y :: out.roots }
+    | _, _ => out
+  | σ, .expr e :: r =>
+    let out := runActs terms σ r
+    match instId terms σ e with
+    | some x => { out with roots := x :: out.roots }
+    | none => out
+  | σ, .letv v e :: r =>
+    match instId terms σ e with
+    | some x =>
+      let out := runActs terms ((v, x) :: σ) r
+      { out with roots := x :: out.roots }
+    | none => runActs terms σ r
 
 /-- `check_fact_matches_proposition` against the proposition of premise step `p` -/
 def factOk (terms : Array Term) (σ : List (Nat × Nat)) (prev : List Step) (f : RFact) (p : Nat) : Bool :=
@@ -118,21 +148,29 @@ def factsOk (terms : Array Term) (σ : List (Nat × Nat)) (prev : List Step) : L
   | f :: fs, p :: ps => factOk terms σ prev f p && factsOk terms σ prev fs ps
   | _, _ => false
 
-/-- `check_rule_produces_equality` -/
-def headOk (terms : Array Term) (σ : List (Nat × Nat)) (rl : Rule) (l r : Nat) : Bool :=
-  (headEqs rl.head).any (fun ab => instId terms σ ab.1 == some l && instId terms σ ab.2 == some r) ||
-  (l == r && (headExprs rl.head).any (fun e =>
-    match instId terms σ e with
-    | some x => reach terms terms.size x l
-    | none => false))
+/-- `check_rule_produces_equality` / `in_globals`: the claim is among the propositions -/
+def propsOk (terms : Array Term) (out : ActOut) (l r : Nat) : Bool :=
+  out.eqs.contains (l, r) || (l == r && out.roots.any (fun x => reach terms terms.size x l))
+
+/-- the bindings of the program's global `let`s -/
+def globalσ (prog : Prog) (terms : Array Term) : List (Nat × Nat) := (runActs terms [] prog.globals).σ
+
+def isLit (prog : Prog) (terms : Array Term) (a : Nat) : Bool :=
+  match terms[a]? with
+  | some t => prog.lits.contains t.head
+  | none => false
 
 /-- is step `s` (at position `n`, using only steps `< n`) correctly derived? -/
-def stepOk (rules : List Rule) (terms : Array Term) (prev : List Step) (s : Step) : Bool :=
+def stepOk (prog : Prog) (terms : Array Term) (prev : List Step) (s : Step) : Bool :=
   match s.just with
   | .leaf => true
+  | .fiat => (s.lhs == s.rhs && isLit prog terms s.lhs) || propsOk terms (runActs terms [] prog.globals) s.lhs s.rhs
   | .rule r prems σ =>
-    match rules[r]? with
-    | some rl => factsOk terms σ prev rl.body prems && headOk terms σ rl s.lhs s.rhs
+    match prog.rules[r]? with
+    | some rl =>
+      -- `working_subst`: the global bindings, overridden by the step's substitution
+      let σf := σ ++ globalσ prog terms
+      factsOk terms σf prev rl.body prems && propsOk terms (runActs terms σf rl.head) s.lhs s.rhs
     | none => false
   | .sym p =>
     match prev[p]? with
@@ -153,11 +191,11 @@ def stepOk (rules : List Rule) (terms : Array Term) (prev : List Step) (s : Step
     | _, _ => false
 
 /-- check a whole proof, steps in dependency order -/
-def checkFrom (rules : List Rule) (terms : Array Term) : List Step → List Step → Bool
+def checkFrom (prog : Prog) (terms : Array Term) : List Step → List Step → Bool
   | _, [] => true
-  | prev, s :: rest => stepOk rules terms prev s && checkFrom rules terms (prev ++ [s]) rest
+  | prev, s :: rest => stepOk prog terms prev s && checkFrom prog terms (prev ++ [s]) rest
 
-def checkProof (rules : List Rule) (terms : Array Term) (steps : List Step) : Bool :=
-  checkFrom rules terms [] steps
+def checkProof (prog : Prog) (terms : Array Term) (steps : List Step) : Bool :=
+  checkFrom prog terms [] steps
 
 end EgglogVerif.ProofCk
